@@ -7,8 +7,9 @@
    (coq/Body/Props.v).  All statements hold for EVERY operation sequence and for
    every type tag (any number), not only the 17 tags of the harness. *)
 From Coq Require Import List NArith Bool.
-From DesVerif Require Import Body.Derive Body.Model Body.Heap Body.Inv Body.Step Body.Props Body.Frame
-  Body.DeriveProps Body.Main.
+From Coq Require Import Permutation.
+From DesVerif Require Import Body.Derive Body.StdLen Body.Model Body.Heap Body.Inv Body.Step Body.Props Body.Frame
+  Body.DeriveProps Body.Main Body.StdLenProps.
 Import ListNotations.
 Open Scope N_scope.
 
@@ -147,6 +148,49 @@ Theorem C16_no_undefined_behaviour : forall ops, ~ In RUB (map fst (run_ops ops)
 Proof. exact no_undefined_behaviour. Qed.
 Print Assumptions C16_no_undefined_behaviour.
 
+(* ---- structural byte lengths of the std impls of MessageBody (coq/Body/StdLen.v) ---- *)
+(* [T; N], Vec, VecDeque, LinkedList, &[T], HashSet, BTreeSet, BinaryHeap: the sum over ALL elements,
+   for every element list (not "N times the first element") *)
+Theorem C16_array_len_is_sum : forall k xs, std_byte_len (VSeq k xs) = sum (map std_byte_len xs).
+Proof. exact seq_len_is_sum. Qed.
+Print Assumptions C16_array_len_is_sum.
+
+Theorem C16_map_len_is_sum : forall k kvs,
+  std_byte_len (VMap k kvs) = sum (map (fun kv => std_byte_len (fst kv) + std_byte_len (snd kv)) kvs).
+Proof. exact map_len_is_sum. Qed.
+Print Assumptions C16_map_len_is_sum.
+
+Theorem C16_tuple_len : forall xs, std_byte_len (VTuple xs) = sum (map std_byte_len xs).
+Proof. exact tuple_len. Qed.
+Print Assumptions C16_tuple_len.
+
+(* Option / Result / Box: the payload of the active variant, nothing for None *)
+Theorem C16_option_len : forall x,
+  std_byte_len VNone = 0 /\ std_byte_len (VSome x) = std_byte_len x /\
+  std_byte_len (VOk x) = std_byte_len x /\ std_byte_len (VErr x) = std_byte_len x /\ std_byte_len (VBox x) = std_byte_len x.
+Proof. intros x. repeat split. Qed.
+Print Assumptions C16_option_len.
+
+(* iteration order and collection kind are irrelevant (hash sets and maps) *)
+Theorem C16_collection_len_order_irrelevant : forall k k' xs ys,
+  Permutation xs ys -> std_byte_len (VSeq k xs) = std_byte_len (VSeq k' ys).
+Proof. exact seq_len_perm. Qed.
+Print Assumptions C16_collection_len_order_irrelevant.
+
+(* a message whose body was created from a value of the std family measures 64 + the structural byte length *)
+Theorem C16_std_message_length : forall ops s mode fam v L ops',
+  mode mod 4 < 2 ->
+  Forall (fun o => ~ touches (STD_BASE + fam) s o) ops' ->
+  let st := final (ops ++ ONew s mode (STD_BASE + fam) v L :: ops') in
+  step st (OLength s) = (st, RLen (std_byte_len (fam_value fam (unpack v)) + HEADER_LEN)).
+Proof. exact std_message_length. Qed.
+Print Assumptions C16_std_message_length.
+
+(* the script numbers a value is built from survive the packing into one model value *)
+Theorem C16_unpack_pack : forall l, Forall (fun x => x < B62) l -> unpack (pack l) = l.
+Proof. exact unpack_pack. Qed.
+Print Assumptions C16_unpack_pack.
+
 (* ---- non-vacuity ---- *)
 (* Tok (tag 9) value 7 in slot 0; failed casts to the layout-compatible Tok2 (10)
    and to u32 (1); clone into slot 1; cast slot 0 out; clone of a non-clonable
@@ -172,3 +216,8 @@ Proof.
     repeat constructor; cbn; auto. intros [E|[]]; discriminate.
   - exists {| vname := 2; vfields := named [1; 2] |}. cbn. intuition.
 Qed.
+
+(* [String; 3] = ["a", "bcd", ""] as a message body: 4 bytes, message length 68 (not 3 * 1 + 64) *)
+Example C16_nonvacuous_std :
+  run [3; 0; 0; 1; 3; 0] = [16; 4; 68; 68] /\ run [3; 1; 1; 0; 1; 1; 0] = [16; 8; 72; 72].
+Proof. vm_compute. split; reflexivity. Qed.
